@@ -28,17 +28,17 @@ func Current() *Sim { return cur.Load() }
 // Config holds the per-run scheduling knobs.  All of it is part of the plan
 // and therefore of the replay file.
 type Config struct {
-	MaxSteps          int            `json:"max_steps"`
-	Mode              string         `json:"mode"`            // "random" | "pct" | "seq"
-	SwitchPermille    int            `json:"switch_permille"` // chance to leave the running task at a step
-	PCTDepth          int            `json:"pct_depth"`
-	ClockPermille     int            `json:"clock_permille"` // chance to advance the clock although tasks are runnable
-	ClockStepsMs      []int          `json:"clock_steps_ms"`
-	FaultPermille     map[string]int `json:"fault_permille"` // per fault alternative, per offered park
-	MaxFaults         int            `json:"max_faults"`
-	LockYieldPermille int            `json:"lock_yield_permille"` // pre-lock / AST yield points that park
-	IdleLimitMs       int            `json:"idle_limit_ms"`       // simulated time the run may sit with nothing runnable
-	Targets           map[string]string `json:"targets,omitempty"` // "task#kvIndex" -> alt : enumerated faults
+	MaxSteps          int               `json:"max_steps"`
+	Mode              string            `json:"mode"`            // "random" | "pct" | "seq"
+	SwitchPermille    int               `json:"switch_permille"` // chance to leave the running task at a step
+	PCTDepth          int               `json:"pct_depth"`
+	ClockPermille     int               `json:"clock_permille"` // chance to advance the clock although tasks are runnable
+	ClockStepsMs      []int             `json:"clock_steps_ms"`
+	FaultPermille     map[string]int    `json:"fault_permille"` // per fault alternative, per offered park
+	MaxFaults         int               `json:"max_faults"`
+	LockYieldPermille int               `json:"lock_yield_permille"` // pre-lock / AST yield points that park
+	IdleLimitMs       int               `json:"idle_limit_ms"`       // simulated time the run may sit with nothing runnable
+	Targets           map[string]string `json:"targets,omitempty"`   // "task#kvIndex" -> alt : enumerated faults
 }
 
 func (c *Config) fill() {
@@ -155,7 +155,18 @@ type Sim struct {
 
 	Verbose bool
 	Logf    func(format string, args ...any)
+
+	// Invariant, when set, is evaluated by the scheduler at every quiescent instant of
+	// Drive (every other goroutine parked or durably blocked).  A non-nil result stops the run.
+	Invariant    func() *Violation
+	invViolation *Violation
 }
+
+// ErrInvariant is returned by Drive when the run's invariant failed.
+var ErrInvariant = errors.New("invariant violated")
+
+// InvariantViolation returns the violation that stopped Drive, if any.
+func (s *Sim) InvariantViolation() *Violation { return s.invViolation }
 
 // ErrStepBudget is returned by Drive when Cfg.MaxSteps is exhausted.
 var ErrStepBudget = errors.New("step budget exhausted")
@@ -629,6 +640,12 @@ func (s *Sim) Drive(cond func() bool) error {
 		synctest.Wait()
 		if len(s.panics) > 0 {
 			return fmt.Errorf("panic in simulated task: %s", s.panics[0])
+		}
+		if s.Invariant != nil && s.invViolation == nil {
+			if v := s.Invariant(); v != nil {
+				s.invViolation = v
+				return ErrInvariant
+			}
 		}
 		if cond() {
 			return nil
